@@ -5,6 +5,22 @@ sys.path.insert(0, os.path.join(os.path.dirname(os.path.abspath(__file__)), ".."
 import vlib  # noqa: E402
 
 
+def _ensure_driver(c, eng):
+    """When a proof / tie obligation of this property broke, the Lean build as a whole failed and the
+    driver was not installed, so no differential run (and no failing-input search) would take place.
+    The engine does not depend on the property theorems: build it on its own."""
+    import shutil
+
+    if eng in c.drivers or not c.harness:
+        return
+    ok, _out, _failed = vlib.lake_build(["drv_" + eng])
+    src = os.path.join(vlib.LEAN, ".lake", "build", "bin", "drv_" + eng)
+    if ok and os.path.exists(src):
+        dst = os.path.join(c.tmp, "drv_" + eng)
+        shutil.copy2(src, dst)
+        c.drivers[eng] = dst
+
+
 def before_diff(c):
     """The c31 harness uses REAL timers. On a loaded machine a timer (or the goroutine it starts) is
     occasionally several hundred ms late, which shows up as `none` / `late=1` where the model expects an
@@ -12,6 +28,7 @@ def before_diff(c):
     whose answers differ from the model's is re-run (at most twice) and the re-run's answers are used when
     they agree with the model. Every defect this check is about is reproduced deterministically by the
     gate-controlled scripts and survives the re-run."""
+    _ensure_driver(c, "c31")
     orig = c.go_run
     stats = c.p.setdefault("extra_coverage", {})
     stats["timing_reruns"] = 0
@@ -42,6 +59,10 @@ PROP = dict(
     engines=["c31"],
     go_tags=["c31"],
     lean_modules=["MM.Props.C31"],
+    extract_files={"MM/Gen/LockC31.lean": {"cmd": ["go", "run", "{VERIF}/tools/lockshape.go", "LockC31",
+        "{REPO}/internal/peer/reconnect.go",
+        "Reconnector.Schedule,Reconnector.attemptReconnect,Reconnector.Pause,Reconnector.Resume,Reconnector.ResetAll,Reconnector.clearState,Reconnector.Stop",
+        "mu", "paused,states,closed"]}},
     theorems=[
         "MM.C31.reachable_inv",
         "MM.C31.C31_paused_no_attempt",
@@ -53,6 +74,7 @@ PROP = dict(
         "MM.C31.dseq_le_max",
         "MM.C31.dseq_le_geometric",
         "MM.C31.C31_run",
+        "MM.C31.LockTie.C31_lock_regions",
         "MM.C31.C31_old_attempt_while_paused",
         "MM.C31.C31_old_orphan_timer",
     ],
@@ -66,7 +88,7 @@ PROP = dict(
          "the upper bound only with 300 ms slack. non-trivial = waits",
     nontrivial=lambda op, out: op.startswith("wait"),
     trusted_base=[
-        "MM/Model/C31.lean: one peer address; atomic steps = regions under Reconnector.mu; time.Timer.Stop treated as atomic with the expiry "
+        "MM/Model/C31.lean: one peer address (the engine runs one instance per address, sharing paused/closed; independence of addresses is not a theorem); atomic steps = regions under Reconnector.mu; time.Timer.Stop treated as atomic with the expiry "
         "(a timer that is already firing when stopped is covered only by the paused check at the start of attemptReconnect)",
         "float64 arithmetic of Multiplier/Jitter modelled as exact rationals + truncation (exact for the multipliers used in T-diff)",
         "the harness waits up to 30 ms for the reconnector to process a callback result before the next scripted step",
